@@ -11,6 +11,7 @@ mod c10;
 mod c05;
 mod c13;
 mod c04;
+mod c01;
 
 fn main() {
     // silence the default panic message: panics are observations here
@@ -27,7 +28,8 @@ fn main() {
         "c10" | "c11" => c10::run(rest),
         "c05" | "c14" => c05::run(rest),
         "c13" => c13::run(rest),
-        "c04" => c04::run(rest),
+        "c04" | "c07" => c04::run(rest),
+        "c01" | "c02" => c01::run(rest),
         other => {
             eprintln!("unknown subcommand {other}");
             std::process::exit(2);
